@@ -100,6 +100,7 @@ def s_toks(s, out):
     elif k == 'SLet': out += ['LET', s[1]]; e_toks(s[2], out)
     elif k == 'SRoster': out.append('ROSTER'); e_toks(s[1], out); out.append(str(s[2]))
     elif k == 'SMapStrip': out.append('MAPSTRIP'); e_toks(s[1], out)
+    elif k == 'SMapPrefix': out.append('MAPPREFIX'); e_toks(s[1], out)
     else: raise AssertionError(s)
 
 
